@@ -10,9 +10,9 @@ cp $DEMO $OUT/
 [ -s $OUT/patch.diff ] || { echo "no diff"; exit 2; }
 echo "== baseline with change"; /venv/bin/python /verif/tools/baseline.py $WT 2>&1 | tail -3 | tee $OUT/baseline.txt
 echo "== demo with change"; PYTHONPATH=$WT timeout 600 /venv/bin/python $DEMO > $OUT/demo_with.txt 2>&1; W=$?; tail -3 $OUT/demo_with.txt; echo "exit=$W"
-git stash -q
+git apply -R $OUT/patch.diff
 echo "== demo without change"; PYTHONPATH=$WT timeout 600 /venv/bin/python $DEMO > $OUT/demo_without.txt 2>&1; WO=$?; tail -2 $OUT/demo_without.txt; echo "exit=$WO"
-git stash pop -q
+git apply $OUT/patch.diff
 RES=""
 for p in ${PROPS//,/ }; do
   out=$(cd /verif && VERIF_REPO=$WT ./check $p --no-evidence 2>&1)
